@@ -518,6 +518,7 @@ func ruleC03(prog *Program, rep *Report) {
 		"A-subset: sen.Parser and sen.Tokenizer, explored in product with the RFC 8259 reference but compared as a superset: wherever the reference continues the SEN front-end continues (no rejects-live), wherever the reference accepts at end of input the SEN front-end does (no eof-reject), containers open and close in lock-step while the input is JSON (no stack-desync), and no JSON prefix drives them into a panic or an endless re-dispatch; bytes only SEN accepts are not followed. For sen.Parser the kind of the top of the build stack (pending key / object being filled / other) is tracked, because its helpers choose key-or-value from it",
 		"A-senchunk: sen.Parser and sen.Tokenizer each explored in product with themselves: one side under an arbitrary chunking (fast paths look ahead as far as the buffer allows, a refill may happen between any two steps), the other under one-byte chunking (no fast path is ever taken), reading the same bytes. The two sides must give the same verdict for every byte and at end of input, push and pop containers in lock-step with equal frames, and produce the same sequence of observable operations (handler calls; for the parser: build-stack pushes/pops/truncations, key pushes, result store / callback call / channel send), compared with a bounded lag because a fast path reports a token when it sees the delimiter and the slow path when the delimiter is dispatched. Conditions over untracked data fork on both sides and are paired by source position; a disagreement is reported only when no pairing agrees",
 		"A-sencross: sen.Parser against sen.Tokenizer, both under one-byte chunking (their chunk independence is A-senchunk), one shared byte-class partition: whenever one reports an error at a byte (or at end of input) the other reports one too or is in a state from which no continuation is accepted, and containers are pushed and popped on the same bytes. 'No continuation is accepted' is decided on each machine's own state graph by backward reachability from the accepting states, using only pops whose uncovered frame the abstraction determines (frames remember the two frames they cover), so it under-approximates: a front-end that notices a hopeless input later than the other (a number in key position) is not reported, a real divergence nested deeper than two containers may be missed. Bytes for which either side lacks an arm (known findings of A-noarm) are outside the compared language",
+		"A-preamble: the []byte entry and the reader entry of one front-end reject the same first bytes before the dispatch function sees the input (the partial byte-order-mark test), unless the dispatch function rejects that first byte anyway",
 		"A-noarm: in sen.Parser and sen.Tokenizer explored alone, every action code a reachable (mode, byte) cell holds has a case in the dispatch switch (a missing case silently skips the byte in one sibling only)")
 	rep.Explain(engineAExplanation)
 	rep.Explain("C03 decides agreement of the strict-JSON front-ends as acceptors and event sources under every chunking, in single- and multi-document mode (the multi-document reference is: a sequence of JSON values optionally separated by whitespace; a top-level number ends at whitespace or end of input), and the structural part of sen.Parser/sen.Tokenizer agreement (no silently skipped action code). Not covered: equality of the value trees (values are Top in the abstract domain), alt.Builder reconstruction, Simplify, and equality of the SEN and JSON trees for a JSON text (A-subset decides acceptance and container structure only).")
@@ -540,6 +541,7 @@ func ruleC03(prog *Program, rep *Report) {
 		scross = append(scross, exploreCrossOne(prog, senFrontEnds[0], senFrontEnds[1], mo))
 	}
 	applyParseResults(rep, scross, kindsCross, "A-sencross", 12)
+	rulePreambleAgree(prog, rep)
 	ruleSENFollow(prog, rep)
 	ruleReaderLoops(prog, rep)
 	ruleEntryParity(prog, rep, "oj.Parser", "oj.Validator", "oj.Tokenizer", "gen.Parser", "sen.Parser", "sen.Tokenizer") // the []byte and the reader entry must start from the same state
@@ -639,5 +641,68 @@ func reportKinds(rep *Report, results []feResult, kinds map[string]bool, rule st
 		if n == 0 {
 			rep.Discharge(rule, r.label(), "", "no step of the explored product violates the rule")
 		}
+	}
+}
+
+// rulePreambleAgree: a first byte that one entry rejects in its preamble (before the dispatch function)
+// and the sibling entry hands to the dispatch function must be rejected there too.
+func rulePreambleAgree(prog *Program, rep *Report) {
+	n := 0
+	for _, g := range entryGroups {
+		if !g.work || len(g.entries) != 2 {
+			continue
+		}
+		rej := map[string]map[int]string{}
+		for _, e := range g.entries {
+			rej[e] = preambleRejects(prog, g.rel, g.typ, map[string]bool{e: true})
+		}
+		m, err := ExtractMachine(prog, g.rel, g.typ, g.entries)
+		if err != nil {
+			rep.Errorf("A-preamble: %v", err)
+			continue
+		}
+		m.in.cls = nil // every byte is its own class
+		for i, e := range g.entries {
+			other := g.entries[1-i]
+			var bs []int
+			for b := range rej[e] {
+				bs = append(bs, b)
+			}
+			sort.Ints(bs)
+			for _, b := range bs {
+				n++
+				key := fmt.Sprintf("%s.%s:preamble:%s:%s-only", g.rel, g.typ, byteDesc(b), e)
+				if rej[other][b] != "" {
+					rep.Discharge("A-preamble", key, "", "both entries reject it in the preamble")
+					continue
+				}
+				// does the dispatch function reject it as first byte?
+				starts, _, err := m.Starts(other, map[string]Val{"OnlyOne": vConstBool(true)})
+				if err != nil || len(starts) == 0 {
+					rep.Errorf("A-preamble: %s.%s.%s: no start state: %v", g.rel, g.typ, other, err)
+					continue
+				}
+				accepts := false
+				for _, s0 := range starts {
+					for _, h := range m.enterWork(s0) {
+						for _, o := range m.Step(m.in, h, b) {
+							if o.Kind != "error" {
+								accepts = true
+							}
+						}
+					}
+				}
+				if !accepts {
+					rep.Discharge("A-preamble", key, "", "the dispatch function rejects this first byte as well")
+					continue
+				}
+				rep.Violate(Finding{Rule: "A-preamble", Key: key, Pos: "",
+					Msg: fmt.Sprintf("%s.%s.%s rejects a document whose first byte is %s (unless a byte order mark follows) before parsing; %s hands the same bytes to the dispatch function, which accepts that byte: the two entries disagree on such input", g.rel, g.typ, e, byteDesc(b), other)})
+			}
+		}
+	}
+	rep.Eval(n)
+	if n < 4 {
+		rep.Errorf("A-preamble examined %d preamble rejections (floor 4): anchors did not resolve", n)
 	}
 }
